@@ -187,6 +187,8 @@ def run(chk: Check, ctx: Any) -> None:
         "with a value compile() accepts, it is part of the prefix handed to the SsbScript decompiler (so its line counter includes it), and "
         "every other prefix line is a comment; (R4) the raw ops handed to the fallback come from a deepcopy taken before any pass ran. "
         "Exactness of the fallback text is C07. Implicit exceptions are covered only as far as the handler catches Exception."
+        " (R7, interpreter-based) convert() is evaluated on the program families: it returns text and source map for every program, and fallback text compiles "
+        "back to the input op for op."
     )
     chk.rule("C06-R7", "round trip, every stage interpreted: convert() returns text and source map for every program of the skeleton families; fallback text carries the marker and compiles back to the input op for op")
     chk.rule("C06-R1", "raise-set of the try body of convert() is a subset of what its fallback handler catches; AssertionError is caught")
